@@ -1,0 +1,12 @@
+//go:build verif
+
+package util
+
+// Ghost code for govc (see /verif/DESIGN.md): never called, compiled only with -tags verif. The body is the induction
+// skeleton of a lemma; the lemma's statement is the contract of the same name in verif_contracts.go.
+
+// lemmaMergedKeyInjective: two key tuples of the same arity whose merged keys (AppendMergedKey) are equal are equal.
+func lemmaMergedKeyInjective(ma, mb []byte, a, b []string) {
+	for i := 0; i < len(a); i++ {
+	}
+}
